@@ -138,6 +138,13 @@ def bisimilar(ref, ref_init, ref_fin, game):
 
 
 def gen_boards(rng, tier):
+    # force-down boards with a trap: a '->' tile directly left of a '<-' tile (the light can keep the robot bouncing between them for ever),
+    # zero reward on the trap so that the solver converges; the start tile can still win
+    for mv, rw, lo in (([[3, 2, 0], [3, 1, 1]], [[1, 0, 0], [2, 0, 0]], [[0, 0, 0], [1, 0, 0]]),
+                       ([[3, 2, 0]], [[1, 0, 0]], [[0, 0, 0]]),
+                       ([[2, 0, 3], [1, 3, 1]], [[0, 0, 2], [0, 1, 0]], [[0, 0, 0], [0, 1, 0]])):
+        yield dict(board=(mv, rw, lo), probs=(0.1, 0.1, 0.1))
+        yield dict(board=(mv, rw, lo), probs=(0.25, 0.2, 0.4))
     shapes_ex = dict(quick=[(1, 1), (1, 2), (2, 1)], thorough=[(1, 1), (1, 2), (2, 1), (1, 3), (3, 1)])[tier]
     for (L, W) in shapes_ex:
         n = L * W
@@ -162,6 +169,9 @@ def gen_boards(rng, tier):
         rw = [[rng.randint(0, 6) for _ in range(W)] for _ in range(L)]
         lo = [[rng.randint(0, 1) for _ in range(W)] for _ in range(L)]
         yield dict(board=(mv, rw, lo), probs=(rng.choice([0.1, 0.125, 0.3, 0.996, 0.004, 1 / 3, 0.12345, 0.99999]), rng.choice([0.1, 0.25, 0.01, 1 / 3, 0.12345, 1e-05, 0.99999]), rng.choice([0.1, 0.5, 0.05, 2 / 3, 0.54321, 1e-05])))
+
+
+_SOLVE_BUDGET = [25.0]      # seconds per oracle process spent on solving generated games (many of them do not converge: F-DIVERGE)
 
 
 def check_board(inp, mods, rng=None):
@@ -209,4 +219,22 @@ def check_board(inp, mods, rng=None):
         lose = n - 2
         if tl[lose] != [(1, lose)] or lose in fs:
             F.append(({'C11'}, 'absorbing-loser', tag + f'state {lose}: {tl[lose]!r}'))
+        # "each game is then either solved or reported as having no solution": on small boards the real solver is run under a time limit;
+        # a game it does not finish in time is NOT judged here (the generated games need not be stopping: recorded finding F-DIVERGE), any
+        # outcome other than a result or a ValueError is a failure
+        if n <= 120 and not F and _SOLVE_BUDGET[0] > 0 and os.environ.get('ORACLE_PROP', 'C11') == 'C11':
+            import copy as _copy
+            import time as _time
+            import solver_checks as _SC
+            for prune in (True, False):
+                t0_ = _time.time()
+                try:
+                    _SC.timed(lambda: tad.StochasticGame(**_copy.deepcopy(g), prune_states=prune).solve(), 1)
+                except (ValueError, _SC.Timeout):
+                    pass
+                except BaseException as e:   # noqa
+                    F.append(({'C11', 'C06'}, 'solved-or-refused', tag + f'solve(prune={prune}) of the generated game ended with {type(e).__name__}: {e}; board {board!r}'))
+                    break
+                finally:
+                    _SOLVE_BUDGET[0] -= _time.time() - t0_
     return F[:4]
